@@ -493,7 +493,7 @@ def c13(tier, seed):
     obs = []
     for lid in lists:
         obs.append(cmp_ob('C13', lid, 1, smax=(1 if lid in TWO_SPAN else None)))
-        obs.append(cmp_ob('C13', lid, 2, smax=(1 if (tier == 'quick' and lid != 'E3') or lid in TWO_SPAN else None), kv=2))   # E3 at spans 0..2: witness of KF-eq-shape
+        obs.append(cmp_ob('C13', lid, 2, smax=(1 if (tier == 'quick' and lid != 'E3') or lid in TWO_SPAN or lid in ('FL4', 'G3') else None), kv=2))   # E3 at spans 0..2: witness of KF-eq-shape
     return obs
 
 
